@@ -57,7 +57,7 @@ Ltac keq :=
   end.
 
 Ltac acc := cbn [users sessions cache cap now next_uuid pending with_users with_users_del with_sessions with_cache with_now
-                 with_pending u_hash u_disabled u_uuid u_ver u_pw s_user s_uuid s_expires s_ttl s_onetime refreshed
+                 with_pending u_hash u_disabled u_uuid u_ver u_pw s_user s_uuid s_expires s_docexp s_ttl s_onetime refreshed
                  p_user p_pw p_cost p_ver fst snd] in *.
 
 Section Proofs.
@@ -114,8 +114,12 @@ Section Proofs.
   Qed.
 
   Lemma get_session_some st sid s :
-    get_session C st sid = Some s -> alookup sid (sessions st) = Some s /\ now st < s_expires s.
-  Proof. unfold get_session; intros H. repeat dm; try discriminate. inv H. keq. auto. Qed.
+    get_session C st sid = Some s ->
+    alookup sid (sessions st) = Some s /\ (s_docexp s = 0 \/ now st < s_docexp s).
+  Proof.
+    unfold get_session; intros H. repeat dm; try discriminate. inv H.
+    match goal with H : _ || _ = true |- _ => apply orb_true_iff in H; destruct H end; keq; auto.
+  Qed.
 
   Ltac look :=
     repeat match goal with
@@ -325,9 +329,46 @@ Section Proofs.
     intros ->. cbn in *. assumption.
   Qed.
 
-  Lemma session_auth_sound ccd rcp st sid o w :
+  (* every stored session document was written with a bucket expiry equal to its Expiration (and a non-zero TTL):
+     the invariant that makes sessions expire although the code never compares Expiration with the clock *)
+  Definition SInv (st : state) : Prop :=
+    forall sid s, alookup sid (sessions st) = Some s ->
+      s_docexp s = s_expires s /\ s_docexp s <> 0 /\ s_ttl s <> 0.
+
+  Lemma SInv_init capacity : SInv (init C capacity).
+  Proof. intros sid s H. discriminate H. Qed.
+
+  Lemma SInv_step ccd rcp st o : SInv st -> SInv (fst (step_gen C ccd rcp st o)).
+  Proof.
+    intros S. destruct o; unfold step_gen, consume.
+    9: { destruct (pass_check_frame st u p ev) as [_ [E2 _]].
+         destruct (pass_check C st u p ev) as [st1 w]; cbn [fst] in *. unfold SInv. rewrite E2. exact S. }
+    9: { destruct (pass_check_frame st u p ev) as [_ [E2 _]].
+         destruct (pass_check C st u p ev) as [st1 w]; cbn [fst] in *.
+         unfold SInv. repeat dm; acc; rewrite E2; exact S. }
+    all: repeat dm; cbn [fst]; try exact S; unfold SInv in *; acc; intros sid0 s0 H0; look; repeat dm; inv_some; acc;
+      keq; eauto; try (repeat split; lia).
+    all: match goal with
+         | Hg : get_session C _ ?x = Some ?s1 |- _ =>
+             apply get_session_some in Hg; destruct Hg as [Hg _]; destruct (S _ _ Hg) as [? [? ?]]; repeat split; lia
+         end.
+  Qed.
+
+  Lemma SInv_run ccd rcp ops : forall st, SInv st -> SInv (run_gen C ccd rcp st ops).
+  Proof.
+    induction ops as [|o ops IH]; intros st H; [exact H|].
+    cbn [run_gen fold_left]. apply IH. apply SInv_step. exact H.
+  Qed.
+
+  Lemma SInv_reach ccd rcp capacity ops : SInv (run_gen C ccd rcp (init C capacity) ops).
+  Proof. apply SInv_run, SInv_init. Qed.
+
+  (* the store still has the document: it carries no expiry, or its expiry lies ahead *)
+  Definition doc_live (st : state) (s : session) : Prop := s_docexp s = 0 \/ now st < s_docexp s.
+
+  Lemma session_auth_sound0 ccd rcp st sid o w :
     presents o sid -> authed (snd (step_gen C ccd rcp st o)) = Some w ->
-    exists s usr, alookup sid (sessions st) = Some s /\ now st < s_expires s /\ s_user s = w /\
+    exists s usr, alookup sid (sessions st) = Some s /\ doc_live st s /\ s_user s = w /\
       alookup w (users st) = Some usr /\ s_uuid s = u_uuid usr /\
       (ccd = true -> authenticates o sid -> u_disabled usr = false).
   Proof.
@@ -346,12 +387,24 @@ Section Proofs.
       intros _ [E|E]; discriminate E.
   Qed.
 
+  (* ... and since every stored document carries the expiry it was written with, the session is unexpired *)
+  Lemma session_auth_sound ccd rcp st sid o w :
+    SInv st -> presents o sid -> authed (snd (step_gen C ccd rcp st o)) = Some w ->
+    exists s usr, alookup sid (sessions st) = Some s /\ now st < s_expires s /\ s_user s = w /\
+      alookup w (users st) = Some usr /\ s_uuid s = u_uuid usr /\
+      (ccd = true -> authenticates o sid -> u_disabled usr = false).
+  Proof.
+    intros S P H. destruct (session_auth_sound0 _ _ _ _ _ _ P H) as [s [usr [Es [Hl [Hu [Eu [Euu Hd]]]]]]].
+    exists s, usr. repeat split; auto.
+    destruct (S _ _ Es) as [E1 [E2 _]]. destruct Hl as [Hl|Hl]; [contradiction | lia].
+  Qed.
+
   (* ---- dead sessions stay dead ---- *)
   (* a session id is dead when its document is expired or bound to a credential epoch that the
      user (if one of that name exists at all) has left behind; an absent document is dead *)
   Definition dead (st : state) (sid : N) : Prop :=
     forall s, alookup sid (sessions st) = Some s ->
-      s_expires s <= now st \/
+      (s_docexp s <> 0 /\ s_docexp s <= now st) \/
       (forall usr, alookup (s_user s) (users st) = Some usr -> s_uuid s < u_uuid usr).
 
   Definition not_create (sid : N) (o : op) : Prop :=
@@ -366,8 +419,8 @@ Section Proofs.
     dead st sid -> presents o sid -> authed (snd (step_gen C ccd rcp st o)) = None.
   Proof.
     intros D P. destruct (authed (snd (step_gen C ccd rcp st o))) as [w|] eqn:E; [|reflexivity].
-    destruct (session_auth_sound _ _ _ _ _ _ P E) as [s [usr [Es [Hl [Hu [Eu [Euu _]]]]]]].
-    destruct (D _ Es) as [D1|D2]; [lia|]. subst w. specialize (D2 _ Eu). lia.
+    destruct (session_auth_sound0 _ _ _ _ _ _ P E) as [s [usr [Es [Hl [Hu [Eu [Euu _]]]]]]].
+    destruct (D _ Es) as [D1|D2]; [destruct Hl; lia|]. subst w. specialize (D2 _ Eu). lia.
   Qed.
 
   Lemma dead_step ccd rcp st sid o :
@@ -438,14 +491,24 @@ Section Proofs.
   Proof.
     unfold step_gen. destruct (get_session C st sid) as [s|] eqn:Eg; cbn [fst]; unfold dead; acc; intros s0 Hs0.
     - look. rewrite N.eqb_refl in Hs0. discriminate Hs0.
-    - left. unfold get_session in Eg. rewrite Hs0 in Eg. dm; [discriminate Eg|]. keq. assumption.
+    - left. unfold get_session in Eg. rewrite Hs0 in Eg. dm; [discriminate Eg|].
+      match goal with H : _ || _ = false |- _ => apply orb_false_iff in H; destruct H end. keq. split; assumption.
   Qed.
 
   Lemma expiry_kills ccd rcp st sid s dt :
-    alookup sid (sessions st) = Some s -> s_expires s <= now st + dt ->
+    SInv st -> alookup sid (sessions st) = Some s -> s_expires s <= now st + dt ->
     dead (fst (step_gen C ccd rcp st (Advance dt))) sid.
   Proof.
-    intros Es Hle. unfold step_gen; cbn [fst]; unfold dead; acc. intros s0 Hs0. rewrite Es in Hs0; inv Hs0. left; assumption.
+    intros S Es Hle. destruct (S _ _ Es) as [E1 [E2 _]].
+    unfold step_gen; cbn [fst]; unfold dead; acc. intros s0 Hs0. rewrite Es in Hs0; inv Hs0. left; split; [assumption | lia].
+  Qed.
+
+  (* the other direction of the same fact: a document written without a bucket expiry is never removed *)
+  Lemma stored_session_expires st sid s t :
+    SInv st -> alookup sid (sessions st) = Some s -> s_expires s <= t -> get_session C (with_now st t) sid = None.
+  Proof.
+    intros S Es Hle. destruct (S _ _ Es) as [E1 [E2 _]]. unfold get_session. acc. rewrite Es.
+    apply N.eqb_neq in E2. rewrite E2. cbn [orb]. destruct (t <? s_docexp s) eqn:E; [|reflexivity]. keq. lia.
   Qed.
 
   (* a one-time session that authenticated is gone *)
